@@ -130,6 +130,8 @@ def exLadder : Heap := #[
 def exSize : MapperSpec Nat := { sel := fun _ _ => true, combine := fun _ vs => 1 + vs.sum }
 
 example : WFHeap exLadder := (wfHeap_iff _).1 (by decide)
+example : ∀ k l, exSize.sel k l = true := fun _ _ => rfl
+example : (6 : Nat) < 100 := by decide
 example : (runCached exSize exLadder 6).log = [0, 1, 2, 3, 4, 5, 6] := by decide
 example : (runCached exSize exLadder 6).val = some 23 ∧ runTree exSize exLadder 6 = some 23 := by
   decide
